@@ -7,8 +7,8 @@
 (*              the row of Analysis.thresholds in 1e-6 units]              *)
 (*  "status" : [entry, observed] - get_fit_status on one grid entry        *)
 (* Clauses are C16's statement; tolerances: the reported threshold may     *)
-(* differ from the planted one by 5 reported standard errors or 1% of      *)
-(* p_th (whichever is larger); results under different layouts may differ  *)
+(* differ from the planted one by 5 half-widths of its reported confidence  *)
+(* interval or 1% of p_th (whichever is larger); results under different layouts may differ  *)
 (* by 2e-6 (rounding of the 1e-6 projection).                              *)
 (***************************************************************************)
 EXTENDS DataDriven, Threshold
@@ -25,16 +25,23 @@ RateOf(c, off) == (c.pth * (1000 + off)) \div 10  \* 1e-6
 OffSet(c) == { c.offs[j] : j \in DOMAIN c.offs }
 PMin(c) == RateOf(c, MinOf(OffSet(c)))
 PMax(c) == RateOf(c, MaxOf(OffSet(c)))
+\* the manual window drops the outermost rate on each side
+WMin(c, mode) == IF mode = "override" THEN RateOf(c, MinOf(OffSet(c) \ {MinOf(OffSet(c))})) ELSE PMin(c)
+WMax(c, mode) == IF mode = "override" THEN RateOf(c, MaxOf(OffSet(c) \ {MaxOf(OffSet(c))})) ELSE PMax(c)
 
 RunClauses(c, r) ==
   IF r.raised # "" THEN {"estimation_raised"} ELSE
-     (IF Abs(r.th - Planted(c)) <= MaxV(5 * r.se, c.pth) THEN {}
+     (IF Abs(r.th - Planted(c)) <= MaxV(5 * ((r.right - r.left) \div 2), c.pth) THEN {}
       ELSE {"threshold_differs_from_the_planted_one_beyond_fit_tolerance"})
 \cup (IF r.left <= r.th /\ r.th <= r.right THEN {} ELSE {"threshold_outside_its_own_confidence_interval"})
-\cup (IF PMin(c) <= r.th /\ r.th <= PMax(c) THEN {} ELSE {"threshold_outside_the_data_range"})
+\cup (IF WMin(c, r.mode) <= r.th /\ r.th <= WMax(c, r.mode) THEN {} ELSE {"threshold_outside_the_data_range"})
 \cup (IF r.status = "success" /\ r.found THEN {} ELSE {"fit_not_flagged_successful"})
-\cup (IF r.se > 0 /\ r.left < r.right /\ r.se < c.pth * 10 THEN {} ELSE {"degenerate_or_implausibly_wide_uncertainty"})
-\cup (IF Abs(r.pl - PMin(c)) <= 2 /\ Abs(r.pr - PMax(c)) <= 2 THEN {} ELSE {"data_range_used_is_not_the_range_supplied"})
+\cup (IF r.se > 0 /\ r.left < r.right THEN {} ELSE {"degenerate_uncertainty"})
+\cup (IF r.mode = "auto"
+      THEN (IF PMin(c) - 2 <= r.pl /\ r.pl <= r.th /\ r.th <= r.pr /\ r.pr <= PMax(c) + 2 THEN {}
+            ELSE {"automatic_window_outside_the_data_or_excluding_the_threshold"})
+      ELSE (IF Abs(r.pl - WMin(c, r.mode)) <= 2 /\ Abs(r.pr - WMax(c, r.mode)) <= 2 THEN {}
+            ELSE {"data_range_used_is_not_the_range_supplied"}))
 
 FailedPlanted(r) ==
   LET c == r.case IN
@@ -44,7 +51,7 @@ FailedPlanted(r) ==
       THEN {} ELSE {"MACHINERY_planted_data_not_on_the_ansatz"})
 \cup UNION { RunClauses(c, r.runs[k]) : k \in DOMAIN r.runs }
 \cup (IF \A k \in DOMAIN r.runs :
-           (r.runs[k].raised = "" /\ r.runs[1].raised = "") =>
+           (r.runs[k].raised = "" /\ r.runs[1].raised = "" /\ r.runs[k].mode = "all" /\ r.runs[1].mode = "all") =>
               /\ Abs(r.runs[k].th - r.runs[1].th) <= 2
               /\ Abs(r.runs[k].left - r.runs[1].left) <= 2
               /\ Abs(r.runs[k].right - r.runs[1].right) <= 2
